@@ -83,6 +83,8 @@ class Renderer:
     ws:       callable(i) -> whitespace/comment string inserted between tokens
     parens:   wrap every plain sub-expression of a cat in redundant parentheses
     split:    split string literals with "\\ " continuation at given chunk size
+    nops:     callable() -> list of spellings of the empty expression ("()", "(() ())") inserted between the
+              statements of every concatenation
     """
 
     def __init__(self, **opts):
@@ -166,7 +168,10 @@ class Renderer:
 
     def r_cat(self, n):
         parts = []
+        nf = self.o.get("nops")     # callable() -> list of empty-expression spellings to insert here
         for c in n[1]:
+            if nf:
+                parts.extend(nf())
             if c[0] in ("alt", "or", "infix"):
                 s = "(" + self.r(c) + ")"
             elif self.o.get("parens") and c[0] not in ("let",):
@@ -175,6 +180,8 @@ class Renderer:
                 s = self.r(c)
             if s != "":
                 parts.append(s)
+        if nf and n[1]:
+            parts.extend(nf())
         out = ""
         for i, p in enumerate(parts):
             if i:
